@@ -99,21 +99,43 @@ pub fn check_memory(c: &KitCase) -> Verdict {
         return Verdict::DontCare("image larger than the arena".into());
     }
     let (fid, fso) = read_both(&bt.bytes);
+    let strategy = (fp_json(c) >> 5) % 3;
     let r = with_arena(|a| {
         for x in a.bytes().iter_mut() {
             *x = 0;
         }
         a.write(0, &mem_image);
         let pid = a.pid();
-        let mid = BuildId::read_from_module(ProcessReader::new(pid, ARENA as usize).into()).map(|b| b.0).map_err(|e| format!("{e:?}"));
-        let mso = SoName::read_from_module(ProcessReader::new(pid, ARENA as usize).into()).map(|s| s.0).map_err(|e| format!("{e:?}"));
-        (mid, mso)
+        let read = move || {
+            let mid = BuildId::read_from_module(ProcessReader::new(pid, ARENA as usize).into()).map(|b| b.0).map_err(|e| format!("{e:?}"));
+            let mso = SoName::read_from_module(ProcessReader::new(pid, ARENA as usize).into()).map(|s| s.0).map_err(|e| format!("{e:?}"));
+            (mid, mso)
+        };
+        // which of the three remote-read strategies answers: the default (vectored read), the memory
+        // file (vectored read refused by the kernel), or word-by-word ptrace (memory file unopenable too)
+        match strategy {
+            0 => Some(read()),
+            1 => crate::vcore::world::on_filtered_thread(32, read),
+            _ => crate::vcore::world::on_filtered_thread(32, move || {
+                // word-by-word reads need the helper attached to and stopped by THIS thread
+                let p = nix::unistd::Pid::from_raw(pid);
+                if nix::sys::ptrace::attach(p).is_err() {
+                    return None;
+                }
+                let _ = nix::sys::wait::waitpid(p, Some(nix::sys::wait::WaitPidFlag::__WALL));
+                let r = crate::vcore::faultfs::with_denied_files(crate::vcore::faultfs::F_MEM, 2, read).0;
+                let _ = nix::sys::ptrace::detach(p, None);
+                Some(r)
+            })
+            .flatten(),
+        }
     });
     let (mid, mso) = match r {
-        Ok(x) => x,
+        Ok(Some(x)) => x,
+        Ok(None) => return Verdict::Inconclusive("filtered reader thread could not be set up".into()),
         Err(e) => return Verdict::Inconclusive(format!("arena: {e}")),
     };
-    let mut classes = vec![];
+    let mut classes = vec![["reads:vectored", "reads:memory-file", "reads:ptrace-words"][strategy as usize].to_string()];
     // build id
     let via_phdr = c.spec.build_id.is_some() && c.spec.note_phdr;
     match (&fid, &mid) {
@@ -291,7 +313,7 @@ pub fn run(ctx: &mut LaneCtx) {
         SubSpec {
             name: "memory-vs-file",
             cases: (6_000, 400_000),
-            rule: "uncorrupted kit images loaded at their PT_LOAD layout into the arena helper and read through ProcessReader vs the same bytes as a slice; equal answers required whenever the id/SONAME is reachable through program headers, never a different value; distinct = hash of case",
+            rule: "uncorrupted kit images loaded at their PT_LOAD layout into the arena helper and read through ProcessReader - a third each through the vectored read, through /proc/pid/mem (vectored read refused by a seccomp filter) and through word-by-word ptrace (memory file unopenable as well) - vs the same bytes as a slice; equal answers required whenever the id/SONAME is reachable through program headers, never a different value; distinct = hash of case",
             strategy: spec_strategy().prop_map(|spec| KitCase { spec, corruptions: vec![] }).boxed(),
             max_shrink_iters: 1024,
             log_current: true,
